@@ -963,6 +963,13 @@ class Audit:
                 if k2.rsplit("#", 1)[0] == pre:
                     j = j2
                     break
+        if j and j.get("desc"):
+            # the entry was reviewed for particular operands: found by its key, it still has to be about an expression of the
+            # same shape (constants, operators, calls, field structure; names of locals may change freely) — `stack[sp - 1]`
+            # rewritten as `stack[sp]` at the same ordinal is a different site
+            cur = _shape(_norm_desc(self._describe(B, cx, s)))
+            if cur not in {_shape(_norm_desc(j["desc"])), _shape(_norm_desc(j.get("desc_inl") or j["desc"]))}:
+                j = None
         if j:
             self.used_justifications.add(s.key)
             if not hasattr(self, "descs"):
@@ -1693,6 +1700,11 @@ def _untuple1(d):
         else:
             out += d[i:j + 6]
             i = j + 6
+
+
+def _shape(d):
+    """a description with the names of locals and fields abstracted (function names and paths stay)"""
+    return re.sub(r"(?<![\w:])[a-z_][a-z0-9_]*\b(?!\(|::)", "v", d)
 
 
 def _norm_desc(d):
